@@ -20,14 +20,18 @@ def ev (P B : Int) (t0 : Int) (hs : List Int) : Int := hs.foldl (roll P B) t0
 /-- fingerprint of a sequence of element hashes -/
 def H (P B : Int) (hs : List Int) : Int := ev P B 0 hs
 
-/-- fingerprint of a table = rolling hash of its columns' fingerprints -/
-def Htab (P B : Int) (cols : List (List Int)) : Int := H P B (cols.map (H P B))
+/-- fingerprint of a table = rolling hash, with the table's own base `BT`, of its columns' fingerprints
+    (`Table._FP_B`; a base of its own since the repair of the anti-diagonal collisions) -/
+def Htab (P B BT : Int) (cols : List (List Int)) : Int := H P BT (cols.map (H P B))
 
 /-- with the constants of the current source -/
 def P : Int := Gen.FP_P
 def B : Int := Gen.FP_B
+def BT : Int := Gen.FP_BT
 def fpVec (hs : List Int) : Int := H P B hs
-def fpTab (cols : List (List Int)) : Int := Htab P B cols
+/-- a table's fingerprint from its columns' fingerprints -/
+def fpComb (fps : List Int) : Int := H P BT fps
+def fpTab (cols : List (List Int)) : Int := Htab P B BT cols
 
 end Serif.FP
 
